@@ -166,6 +166,7 @@ CONSTANTS
   MaxOps = %(maxops)d
   Dist = %(dist)d
   BaseTag = "%(basetag)s"
+  ExtraDim <- %(extras)s
 INVARIANTS StepProps Export
 CHECK_DEADLOCK FALSE
 """
@@ -230,7 +231,7 @@ def run_c37(pid, tier, replay):
             ("sim", "MCReportRT", RT_CFG % dict(rich, files="FilesABE", maxdiags=4, budget=14, maxanns=3, maxedits=2,
                                                   maxtexts=2, stages="0, 1", exportmin=2), 1500, 24),
         ]
-        ops = dict(maxdiags=3, maxops=7, dist=2, basetag="t", num=400)
+        ops = dict(maxdiags=3, maxops=7, dist=2, basetag="t", num=400, extras="ExtrasBasic")
     else:
         runs = [
             ("exh22", "MCReportRT", RT_CFG % dict(plain, files="FilesAE", maxdiags=2, budget=2, maxanns=2, maxedits=1,
@@ -238,7 +239,7 @@ def run_c37(pid, tier, replay):
             ("sim", "MCReportRT", RT_CFG % dict(rich, files="FilesABE", maxdiags=4, budget=14, maxanns=3, maxedits=2,
                                                   maxtexts=2, stages="0, 1", exportmin=2), 150, 24),
         ]
-        ops = dict(maxdiags=3, maxops=6, dist=1, basetag="t", num=40)
+        ops = dict(maxdiags=3, maxops=6, dist=1, basetag="t", num=40, extras="ExtrasFull")
     verdict = vf.Verdict(pid)
     states = trans = ncases = checks = 0
     feats = set()
@@ -323,6 +324,8 @@ CONSTANTS
   Dist = %(dist)d
   ExportMin = %(exportmin)d
   BaseTag = "%(basetag)s"
+  ExtraDim <- %(extras)s
+  CoreExtras <- %(core)s
 INVARIANTS SpecCanon Export
 CHECK_DEADLOCK FALSE
 """
@@ -376,10 +379,13 @@ def run_c36(pid, tier, replay):
 
     # ---- part (ii): Canonicalize, every permutation -------------------------------------------
     if thorough:
-        canon_runs = [("d2n3", dict(maxdiags=3, dist=2, exportmin=1, basetag="")),
-                      ("d1n4", dict(maxdiags=4, dist=1, exportmin=4, basetag="t"))]
+        canon_runs = [("d2n3", dict(maxdiags=3, dist=2, exportmin=1, basetag="", extras="ExtrasBasic", core="ExtrasBasic")),
+                      ("d1n3full", dict(maxdiags=3, dist=1, exportmin=1, basetag="t", extras="ExtrasFull", core="ExtrasFull")),
+                      ("d1n4", dict(maxdiags=4, dist=1, exportmin=4, basetag="t", extras="ExtrasBasic", core="ExtrasBasic"))]
     else:
-        canon_runs = [("d1n3", dict(maxdiags=3, dist=1, exportmin=1, basetag="t"))]
+        # every pair over the full universe (for every field of a diagnostic two members differ only in it),
+        # triples over the basic one
+        canon_runs = [("d1n3", dict(maxdiags=3, dist=1, exportmin=1, basetag="t", extras="ExtrasFull", core="ExtrasBasic"))]
     canon_cases = canon_calls = tie_cases = 0
     selftested = False
     for name, p in canon_runs:
@@ -409,8 +415,8 @@ def run_c36(pid, tier, replay):
                 selftested = True
 
     # ---- operation sequences --------------------------------------------------------------------
-    ops = dict(maxdiags=3, maxops=7, dist=2, basetag="t", num=400) if thorough else \
-        dict(maxdiags=3, maxops=6, dist=1, basetag="t", num=40)
+    ops = dict(maxdiags=3, maxops=7, dist=2, basetag="t", num=400, extras="ExtrasBasic") if thorough else \
+        dict(maxdiags=3, maxops=6, dist=1, basetag="t", num=40, extras="ExtrasFull")
     casefile = os.path.join(wd, "cases_ops.jsonl")
     r, n, _ = _tlc_to_file("MCReportOps", "MCReportOps_sim.cfg", OPS_CFG % ops, wd, casefile,
                            simulate=ops["num"], depth=ops["maxops"] + 1)
